@@ -564,10 +564,11 @@ def _parse_config_params(toml):
 
     # Make sure initial olivine fabric is valid.
     try:
-        _params["initial_olivine_fabric"] = getattr(
-            _core.MineralFabric, "olivine_" + _params["initial_olivine_fabric"]
-        )
-    except AttributeError:
+        if not isinstance(_params["initial_olivine_fabric"], _core.MineralFabric):
+            _params["initial_olivine_fabric"] = getattr(
+                _core.MineralFabric, "olivine_" + _params["initial_olivine_fabric"]
+            )
+    except (AttributeError, TypeError):
         raise _err.ConfigError(
             f"invalid initial olivine fabric: {_params['initial_olivine_fabric']}"
         ) from None
